@@ -28,7 +28,7 @@ def _owner(c: dict) -> str:
 
 
 def c_source(db: proto.TypeDB) -> str:
-    L = ['#include <stdio.h>', '#include <stdbool.h>', '#include <stddef.h>']
+    L = ['#include <stdio.h>', '#include <stdbool.h>', '#include <stddef.h>', '#include <assert.h>']
     for h in sorted({target_c.header_of(db.comp(t)) for t in db.ids()}):
         L.append('#include "%s"' % h)
     L += ['int main(void)', '{']
@@ -119,7 +119,10 @@ def probe_c(tgt, db: proto.TypeDB) -> typing.Tuple[bool, typing.Any]:
     src, exe = os.path.join(wd, 'c05_probe.c'), os.path.join(wd, 'c05_probe')
     with open(src, 'w', encoding='utf-8') as f:
         f.write(c_source(db))
-    return _run(['gcc', '-std=c11', '-O0', '-Wall', '-Wextra', '-Werror', '-pedantic', '-I', os.path.join(wd, 'gen'), src, '-o', exe, '-lm'], exe)
+    cmd = ['gcc', '-std=c11', '-O0', '-Wall', '-Wextra', '-Werror', '-pedantic']
+    if tgt.options.get('enable_serialization_asserts'):
+        cmd.append('-DNUNAVUT_ASSERT=assert')      # headers generated with --enable-serialization-asserts require it
+    return _run(cmd + ['-I', os.path.join(wd, 'gen'), src, '-o', exe, '-lm'], exe)
 
 
 def probe_cpp(tgt, db: proto.TypeDB) -> typing.Tuple[bool, typing.Any]:
